@@ -43,14 +43,50 @@ theorem OptBelow.mono {l : List (Option Nat)} {n n' : Nat} (h : OptBelow l n) (h
 
 /-! ### string tables -/
 
-def StrInv (t : StringTable) : Prop := MapBelow t.index t.strings.length
+/-- the index map points below the table, and at the string it is keyed by (improvement round: the
+second clause carries the *decoding* half of canonical interning) -/
+def StrInv (t : StringTable) : Prop :=
+  MapBelow t.index t.strings.length ∧ ∀ kv ∈ t.index, t.strings[kv.2]? = some kv.1
+
+theorem getElem?_append_one {α : Type} (l : List α) (x : α) (i : Nat) :
+    (l ++ [x])[i]? = if i < l.length then l[i]? else if i = l.length then some x else none := by
+  by_cases h : i < l.length
+  · rw [if_pos h, List.getElem?_append_left h]
+  · rw [if_neg h]
+    by_cases h' : i = l.length
+    · subst h'; simp
+    · rw [if_neg h', List.getElem?_eq_none]; simp; omega
+
+theorem getElem?_append_old {α : Type} {l : List α} {i : Nat} {a : α} (x : α) (h : l[i]? = some a) :
+    (l ++ [x])[i]? = some a := by
+  rw [List.getElem?_append_left (List.getElem?_eq_some_iff.mp h).1]; exact h
 
 theorem StringTable.indexFor_spec (t : StringTable) (s : Str) (h : StrInv t) :
     StrInv (t.indexFor s).1 ∧ (t.indexFor s).2 < (t.indexFor s).1.strings.length ∧
     t.strings.length ≤ (t.indexFor s).1.strings.length := by
-  have := @alookup_mem
-  unfold StringTable.indexFor StrInv MapBelow at *
-  grind
+  unfold StringTable.indexFor
+  cases hl : alookup t.index s with
+  | some i => exact ⟨h, h.1.lookup hl, Nat.le_refl _⟩
+  | none =>
+    refine ⟨⟨?_, ?_⟩, by simp, by simp⟩
+    · intro kv hkv
+      simp only [List.mem_cons] at hkv
+      rcases hkv with rfl | hkv
+      · simp
+      · have := h.1 kv hkv; simp; omega
+    · intro kv hkv
+      simp only [List.mem_cons] at hkv
+      rcases hkv with rfl | hkv
+      · simp
+      · exact getElem?_append_old _ (h.2 kv hkv)
+
+/-- the returned index denotes the string; the table is extended at the end -/
+theorem StringTable.indexFor_get (t : StringTable) (s : Str) (h : StrInv t) :
+    (t.indexFor s).1.strings[(t.indexFor s).2]? = some s ∧ t.strings <+: (t.indexFor s).1.strings := by
+  unfold StringTable.indexFor
+  cases hl : alookup t.index s with
+  | some i => exact ⟨h.2 _ (alookup_mem _ _ _ hl), List.prefix_refl _⟩
+  | none => exact ⟨by simp, List.prefix_append _ _⟩
 
 /-- number of strings of a thread string table -/
 abbrev ThreadStrings.n (t : ThreadStrings) : Nat := t.table.strings.length
@@ -79,21 +115,77 @@ theorem ThreadStrings.forGlobal_spec (t : ThreadStrings) (g : Nat) (s : Str) (h 
 
 /-! ### global library table -/
 
-def LibsInv (g : GlobalLibs) : Prop := AllBelow g.used g.all.length ∧ MapBelow g.usedMap g.used.length
+theorem AllBelow.append_one' {l : List Nat} {n x : Nat} (h : AllBelow l n) (hx : x < n) :
+    AllBelow (l ++ [x]) n := by
+  intro y hy; simp only [List.mem_append, List.mem_singleton] at hy
+  rcases hy with hy | rfl
+  · exact h y hy
+  · exact hx
+
+def LibsInv (g : GlobalLibs) : Prop :=
+  AllBelow g.used g.all.length ∧ MapBelow g.usedMap g.used.length ∧
+  -- the used-lib map points at the entry of the library it is keyed by, and finds every entry: a library
+  -- occurs at most once in the used list (improvement round)
+  (∀ kv ∈ g.usedMap, g.used[kv.2]? = some kv.1) ∧
+  (∀ (i h : Nat), g.used[i]? = some h → alookup g.usedMap h = some i)
 
 theorem GlobalLibs.handleFor_spec (g : GlobalLibs) (name : Str) (h : LibsInv g) :
     LibsInv (g.handleFor name).1 ∧ (g.handleFor name).2 < (g.handleFor name).1.all.length ∧
     g.all.length ≤ (g.handleFor name).1.all.length ∧ (g.handleFor name).1.used = g.used := by
-  unfold GlobalLibs.handleFor LibsInv AllBelow at *
-  grind
+  obtain ⟨h1, h2, h3, h4⟩ := h
+  unfold GlobalLibs.handleFor
+  dsimp only
+  split
+  · rename_i hi
+    exact ⟨⟨h1, h2, h3, h4⟩, hi, Nat.le_refl _, rfl⟩
+  · refine ⟨⟨?_, h2, h3, h4⟩, by simp, by simp, rfl⟩
+    intro x hx
+    have := h1 x hx
+    simp; omega
 
 theorem GlobalLibs.indexForUsed_spec (g : GlobalLibs) (lib : Nat) (h : LibsInv g) (hl : lib < g.all.length) :
     LibsInv (g.indexForUsed lib).1 ∧ (g.indexForUsed lib).2 < (g.indexForUsed lib).1.used.length ∧
     g.used.length ≤ (g.indexForUsed lib).1.used.length ∧ (g.indexForUsed lib).1.all = g.all ∧
     (g.indexForUsed lib).1.symtabs = g.symtabs := by
-  have := @alookup_mem
-  unfold GlobalLibs.indexForUsed LibsInv AllBelow MapBelow at *
-  grind
+  obtain ⟨h1, h2, h3, h4⟩ := h
+  unfold GlobalLibs.indexForUsed
+  cases hlk : alookup g.usedMap lib with
+  | some i => exact ⟨⟨h1, h2, h3, h4⟩, h2.lookup hlk, Nat.le_refl _, rfl, rfl⟩
+  | none =>
+    refine ⟨⟨h1.append_one' hl, ?_, ?_, ?_⟩, by simp, by simp, rfl, rfl⟩
+    · intro kv hkv
+      simp only [List.mem_cons] at hkv
+      rcases hkv with rfl | hkv
+      · simp
+      · have := h2 kv hkv; simp; omega
+    · intro kv hkv
+      simp only [List.mem_cons] at hkv
+      rcases hkv with rfl | hkv
+      · simp
+      · exact getElem?_append_old _ (h3 kv hkv)
+    · intro i h hi
+      simp only [alookup]
+      simp only [getElem?_append_one] at hi
+      by_cases hlt : i < g.used.length
+      · rw [if_pos hlt] at hi
+        have hold := h4 i h hi
+        by_cases he : lib = h
+        · rw [← he, hlk] at hold; cases hold
+        · rw [if_neg he]; exact hold
+      · rw [if_neg hlt] at hi
+        split at hi
+        · cases hi
+          rename_i hie
+          simp [hie]
+        · cases hi
+
+/-- the returned index is the entry of `lib` in the used list -/
+theorem GlobalLibs.indexForUsed_get (g : GlobalLibs) (lib : Nat) (h : LibsInv g) :
+    (g.indexForUsed lib).1.used[(g.indexForUsed lib).2]? = some lib := by
+  unfold GlobalLibs.indexForUsed
+  cases hlk : alookup g.usedMap lib with
+  | some i => exact h.2.2.1 _ (alookup_mem _ _ _ hlk)
+  | none => simp
 
 theorem GlobalLibs.getLibName_some (g : GlobalLibs) (i : Nat) (h : LibsInv g) (hi : i < g.used.length) :
     ∃ s, g.getLibName i = some s := by
@@ -106,7 +198,9 @@ theorem GlobalLibs.getLibName_some (g : GlobalLibs) (i : Nat) (h : LibsInv g) (h
 
 def ResInv (nStr nLibs : Nat) (rt : ResourceTable) : Prop :=
   rt.names.length = rt.libs.length ∧ AllBelow rt.libs nLibs ∧ AllBelow rt.names nStr ∧
-  MapBelow rt.map rt.libs.length
+  MapBelow rt.map rt.libs.length ∧
+  -- the map points at the row of the library it is keyed by
+  (∀ kv ∈ rt.map, rt.libs[kv.2]? = some kv.1)
 
 theorem ResInv.mono {nStr nLibs nStr' nLibs' : Nat} {rt : ResourceTable} (h : ResInv nStr nLibs rt)
     (h1 : nStr ≤ nStr') (h2 : nLibs ≤ nLibs') : ResInv nStr' nLibs' rt :=
@@ -119,13 +213,13 @@ theorem ResourceTable.forLib_spec (rt : ResourceTable) (lib : Nat) (g : GlobalLi
   unfold ResourceTable.forLib
   split
   · rename_i r hr'
-    exact ⟨rt, st, r, rfl, hs, Nat.le_refl _, hr, hr.2.2.2.lookup hr', Nat.le_refl _⟩
+    exact ⟨rt, st, r, rfl, hs, Nat.le_refl _, hr, hr.2.2.2.1.lookup hr', Nat.le_refl _⟩
   · obtain ⟨name, hn⟩ := g.getLibName_some lib hg hl
     rw [hn]
     have h1 := st.indexFor_spec (libDisplayName name) hs
     refine ⟨_, _, _, rfl, h1.1, h1.2.2, ?_, ?_, ?_⟩
-    · obtain ⟨a, b, c, d⟩ := hr
-      refine ⟨by simp [a], ?_, ?_, ?_⟩
+    · obtain ⟨a, b, c, d, e⟩ := hr
+      refine ⟨by simp [a], ?_, ?_, ?_, ?_⟩
       · intro x hx; simp only [List.mem_append, List.mem_singleton] at hx
         rcases hx with hx | rfl
         · exact b x hx
@@ -138,8 +232,26 @@ theorem ResourceTable.forLib_spec (rt : ResourceTable) (lib : Nat) (g : GlobalLi
         rcases hkv with rfl | hkv
         · simp
         · have := d kv hkv; simp; omega
+      · intro kv hkv; simp only [List.mem_cons] at hkv
+        rcases hkv with rfl | hkv
+        · simp
+        · exact getElem?_append_old _ (e kv hkv)
     · simp
     · simp
+
+/-- the returned resource is the row of `lib`; rows are only appended -/
+theorem ResourceTable.forLib_get (rt : ResourceTable) (lib : Nat) (g : GlobalLibs) (st : ThreadStrings)
+    (nStr nLibs : Nat) (hr : ResInv nStr nLibs rt) (r : ResourceTable × ThreadStrings × Nat)
+    (h : rt.forLib lib g st = some r) : r.1.libs[r.2.2]? = some lib ∧ rt.libs <+: r.1.libs := by
+  unfold ResourceTable.forLib at h
+  split at h
+  · rename_i r' hr'
+    cases h
+    exact ⟨hr.2.2.2.2 _ (alookup_mem _ _ _ hr'), List.prefix_refl _⟩
+  · split at h
+    · cases h
+    · cases h
+      exact ⟨by simp, List.prefix_append _ _⟩
 
 /-! ### func table -/
 
@@ -197,6 +309,102 @@ theorem FuncTable.indexFor_spec (ft : FuncTable) (k : FuncKey) (rt : ResourceTab
         (f6.mono hn).append_one (fun v hv => Nat.lt_of_lt_of_le (hk.2.1 v hv) hn),
         (f7.mono hr3).append_one (by intro v hv; cases hv; exact hr2)⟩
 
+/-- every func row carries the components of its key; its resource is the row of the key's library -/
+def FuncDec (ft : FuncTable) (rt : ResourceTable) : Prop :=
+  ∀ (j : Nat) (fk : FuncKey), ft.keys[j]? = some fk →
+    ft.names[j]? = some fk.name ∧ ft.files[j]? = some fk.file ∧ ft.flags[j]? = some fk.flags ∧
+    (match fk.lib with
+     | none => ft.resources[j]? = some none
+     | some l => ∃ r, ft.resources[j]? = some (some r) ∧ rt.libs[r]? = some l)
+
+/-- every frame row carries the components of its key, and its func row is the row of the key's func key -/
+def FrameDec (t : FrameTable) : Prop :=
+  FuncDec t.funcs t.resources ∧
+  ∀ (i : Nat) (k : Frame), t.keys[i]? = some k → ∃ j, t.func[i]? = some j ∧ t.funcs.keys[j]? = some k.funcKey ∧
+    t.cat[i]? = some k.cat ∧ t.sub[i]? = some k.sub ∧ t.line[i]? = some k.line ∧ t.col[i]? = some k.col ∧
+    t.addr[i]? = some (k.native.map (·.addr)) ∧ t.nsym[i]? = some (k.native.bind (·.nsym)) ∧
+    t.depth[i]? = some ((k.native.map (·.depth)).getD 0)
+
+theorem prefix_getElem? {α : Type} {l1 l2 : List α} (h : l1 <+: l2) {i : Nat} {a : α} (hi : l1[i]? = some a) :
+    l2[i]? = some a := by
+  obtain ⟨t, rfl⟩ := h
+  rw [List.getElem?_append_left (List.getElem?_eq_some_iff.mp hi).1]; exact hi
+
+theorem FuncDec.mono {ft : FuncTable} {rt rt' : ResourceTable} (h : FuncDec ft rt) (hp : rt.libs <+: rt'.libs) :
+    FuncDec ft rt' := by
+  intro j fk hj
+  obtain ⟨h1, h2, h3, h4⟩ := h j fk hj
+  refine ⟨h1, h2, h3, ?_⟩
+  cases hl : fk.lib with
+  | none => simpa [hl] using h4
+  | some l =>
+    simp only [hl] at h4 ⊢
+    obtain ⟨r, hr1, hr2⟩ := h4
+    exact ⟨r, hr1, prefix_getElem? hp hr2⟩
+
+/-- appending a func row for key `k` whose resource entry `ro` is right -/
+theorem FuncDec.push {ft : FuncTable} {rt : ResourceTable} (h : FuncDec ft rt) (k : FuncKey) (ro : Option Nat)
+    (l1 : ft.names.length = ft.keys.length) (l2 : ft.files.length = ft.keys.length)
+    (l3 : ft.resources.length = ft.keys.length) (l4 : ft.flags.length = ft.keys.length)
+    (hro : match k.lib with
+      | none => ro = none
+      | some l => ∃ r, ro = some r ∧ rt.libs[r]? = some l) :
+    FuncDec ⟨ft.keys ++ [k], ft.names ++ [k.name], ft.files ++ [k.file], ft.resources ++ [ro], ft.flags ++ [k.flags]⟩ rt := by
+  intro j fk hj
+  simp only [getElem?_append_one] at hj ⊢
+  by_cases hlt : j < ft.keys.length
+  · rw [if_pos hlt] at hj
+    rw [if_pos (by omega), if_pos (by omega), if_pos (by omega)]
+    obtain ⟨h1, h2, h3, h4⟩ := h j fk hj
+    refine ⟨h1, h2, h3, ?_⟩
+    cases hl : fk.lib with
+    | none => simp only [hl] at h4 ⊢; rw [if_pos (by omega)]; exact h4
+    | some l => simp only [hl] at h4 ⊢; rw [if_pos (by omega)]; exact h4
+  · rw [if_neg hlt] at hj
+    split at hj
+    · rename_i he
+      cases hj
+      rw [if_neg (by omega), if_pos (by omega), if_neg (by omega), if_pos (by omega), if_neg (by omega),
+        if_pos (by omega)]
+      refine ⟨rfl, rfl, rfl, ?_⟩
+      cases hl : k.lib with
+      | none => simp only [hl] at hro ⊢; rw [if_neg (by omega), if_pos (by omega), hro]
+      | some l =>
+        simp only [hl] at hro ⊢
+        obtain ⟨r, rfl, hr⟩ := hro
+        exact ⟨r, by rw [if_neg (by omega), if_pos (by omega)], hr⟩
+    · cases hj
+
+theorem FuncTable.indexFor_dec (ft : FuncTable) (k : FuncKey) (rt : ResourceTable) (g : GlobalLibs)
+    (st : ThreadStrings) (nStr nRes nStr' nLibs : Nat) (hf : FuncInv nStr nRes ft) (hr : ResInv nStr' nLibs rt)
+    (hd : FuncDec ft rt) (r : FuncTable × ResourceTable × ThreadStrings × Nat)
+    (h : ft.indexFor k rt g st = some r) :
+    FuncDec r.1 r.2.1 ∧ r.1.keys[r.2.2.2]? = some k ∧ ft.keys <+: r.1.keys ∧ rt.libs <+: r.2.1.libs := by
+  obtain ⟨f1, f2, f3, f4, _⟩ := hf
+  unfold FuncTable.indexFor at h
+  by_cases hi : ft.keys.idxOf k < ft.keys.length
+  · simp only [hi, if_true] at h
+    cases h
+    refine ⟨hd, ?_, List.prefix_refl _, List.prefix_refl _⟩
+    rw [List.getElem?_eq_getElem hi, List.getElem_idxOf hi]
+  · simp only [hi, if_false] at h
+    cases hlib : k.lib with
+    | none =>
+      simp only [hlib] at h
+      cases h
+      refine ⟨hd.push k none f1 f2 f3 f4 (by simp [hlib]), by simp, List.prefix_append _ _, List.prefix_refl _⟩
+    | some lib =>
+      simp only [hlib] at h
+      cases hfl : rt.forLib lib g st with
+      | none => simp [hfl] at h
+      | some q =>
+        obtain ⟨rt', st', r'⟩ := q
+        simp only [hfl] at h
+        cases h
+        obtain ⟨hg1, hg2⟩ := rt.forLib_get lib g st _ _ hr _ hfl
+        refine ⟨(hd.mono hg2).push k (some r') f1 f2 f3 f4 (by simp only [hlib]; exact ⟨r', rfl, hg1⟩), by simp,
+          List.prefix_append _ _, hg2⟩
+
 /-! ### frame table -/
 
 /-- `subc c` = number of subcategories of category `c` (0 if there is no such category) -/
@@ -210,7 +418,9 @@ def FrameInv (nStr nLibs nNs : Nat) (subc : Nat → Nat) (t : FrameTable) : Prop
   t.nsym.length = t.keys.length ∧ t.depth.length = t.keys.length ∧
   AllBelow t.func t.funcs.keys.length ∧ SubsOk subc t.cat t.sub ∧ OptBelow t.nsym nNs ∧
   -- frame keys are interned once (`FastIndexSet`)
-  t.keys.Nodup
+  t.keys.Nodup ∧
+  -- rows decode to their keys (improvement round)
+  FrameDec t
 
 def FrameOk (nStr nLibs nNs : Nat) (subc : Nat → Nat) (f : Frame) : Prop :=
   f.name < nStr ∧ (∀ x, f.file = some x → x < nStr) ∧ f.sub < subc f.cat ∧
@@ -226,6 +436,32 @@ theorem SubsOk.append_one {subc : Nat → Nat} {cat sub : List Nat} {c s : Nat}
   · exact h cs hcs
   · exact hs
 
+theorem FrameDec.push (t : FrameTable) (f : Frame) (fn' : FuncTable) (rt' : ResourceTable) (func : Nat)
+    (xa xn : Option Nat) (xd : Nat) (hd : FrameDec t)
+    (l3 : t.func.length = t.keys.length) (l4 : t.cat.length = t.keys.length) (l5 : t.sub.length = t.keys.length)
+    (l6 : t.line.length = t.keys.length) (l7 : t.col.length = t.keys.length) (l8 : t.addr.length = t.keys.length)
+    (l9 : t.nsym.length = t.keys.length) (l10 : t.depth.length = t.keys.length)
+    (hfd : FuncDec fn' rt') (hpre : t.funcs.keys <+: fn'.keys) (hfk : fn'.keys[func]? = some f.funcKey)
+    (ha : xa = f.native.map (·.addr)) (hn : xn = f.native.bind (·.nsym)) (hdp : xd = (f.native.map (·.depth)).getD 0) :
+    FrameDec { funcs := fn', resources := rt', keys := t.keys ++ [f], func := t.func ++ [func],
+               cat := t.cat ++ [f.cat], sub := t.sub ++ [f.sub], line := t.line ++ [f.line],
+               col := t.col ++ [f.col], addr := t.addr ++ [xa], nsym := t.nsym ++ [xn], depth := t.depth ++ [xd] } := by
+  refine ⟨hfd, ?_⟩
+  intro i k hk
+  simp only [getElem?_append_one] at hk ⊢
+  by_cases hlt : i < t.keys.length
+  · rw [if_pos hlt] at hk
+    obtain ⟨j, h1, h2, h3, h4, h5, h6, h7, h8, h9⟩ := hd.2 i k hk
+    refine ⟨j, ?_, prefix_getElem? hpre h2, ?_, ?_, ?_, ?_, ?_, ?_, ?_⟩ <;> rw [if_pos (by omega)] <;> assumption
+  · rw [if_neg hlt] at hk
+    split at hk
+    · cases hk
+      refine ⟨func, ?_, hfk, ?_, ?_, ?_, ?_, ?_, ?_, ?_⟩ <;> rw [if_neg (by omega), if_pos (by omega)]
+      · rw [ha]
+      · rw [hn]
+      · rw [hdp]
+    · cases hk
+
 theorem FrameTable.indexFor_spec (t : FrameTable) (f : Frame) (g : GlobalLibs) (st : ThreadStrings)
     (nNs : Nat) (subc : Nat → Nat)
     (ht : FrameInv st.n g.used.length nNs subc t) (hs : TSInv st) (hg : LibsInv g)
@@ -238,7 +474,7 @@ theorem FrameTable.indexFor_spec (t : FrameTable) (f : Frame) (g : GlobalLibs) (
   · simp only [hi, if_true]
     exact ⟨_, _, _, rfl, hs, Nat.le_refl _, ht, hi, Nat.le_refl _⟩
   · simp only [hi, if_false]
-    obtain ⟨a1, a2, a3, a4, a5, a6, a7, a8, a9, a10, a11, a12, a13, a14⟩ := ht
+    obtain ⟨a1, a2, a3, a4, a5, a6, a7, a8, a9, a10, a11, a12, a13, a14, a15⟩ := ht
     have hnd : (t.keys ++ [f]).Nodup := by
       rw [List.nodup_append]
       refine ⟨a14, by simp, ?_⟩
@@ -256,6 +492,8 @@ theorem FrameTable.indexFor_spec (t : FrameTable) (f : Frame) (g : GlobalLibs) (
       exact (hf.2.2.2 n hn).1
     obtain ⟨fn', rt', st', func, e, hs', hn, hr', hr3, hfn', hfi, hfk⟩ :=
       t.funcs.indexFor_spec f.funcKey t.resources g st a1 a2 hs hg hk
+    obtain ⟨hfd, hfk', hpre, _⟩ := t.funcs.indexFor_dec f.funcKey t.resources g st _ _ _ _ a1 a2 a15.1 _ e
+    simp only at hfd hfk' hpre
     simp only [e]
     have hfunc : AllBelow (t.func ++ [func]) fn'.keys.length :=
       (a11.mono hfk).append_one hfi
@@ -265,13 +503,17 @@ theorem FrameTable.indexFor_spec (t : FrameTable) (f : Frame) (g : GlobalLibs) (
     | none =>
       refine ⟨_, _, _, rfl, hs', hn, ?_, by simp, by simp⟩
       exact ⟨hfn', hr', by simp [a3], by simp [a4], by simp [a5], by simp [a6], by simp [a7],
-        by simp [a8], by simp [a9], by simp [a10], hfunc, hsub, a13.append_one (by simp), hnd⟩
+        by simp [a8], by simp [a9], by simp [a10], hfunc, hsub, a13.append_one (by simp), hnd,
+        FrameDec.push t f fn' rt' func none none 0 a15 a3 a4 a5 a6 a7 a8 a9 a10 hfd hpre hfk'
+          (by simp [hnat]) (by simp [hnat]) (by simp [hnat])⟩
     | some n =>
       have hn' := hf.2.2.2 n hnat
       simp only [hn'.1, if_true]
       refine ⟨_, _, _, rfl, hs', hn, ?_, by simp, by simp⟩
       exact ⟨hfn', hr', by simp [a3], by simp [a4], by simp [a5], by simp [a6], by simp [a7],
-        by simp [a8], by simp [a9], by simp [a10], hfunc, hsub, a13.append_one hn'.2, hnd⟩
+        by simp [a8], by simp [a9], by simp [a10], hfunc, hsub, a13.append_one hn'.2, hnd,
+        FrameDec.push t f fn' rt' func (some n.addr) n.nsym n.depth a15 a3 a4 a5 a6 a7 a8 a9 a10 hfd hpre hfk'
+          (by simp [hnat]) (by simp [hnat]) (by simp [hnat])⟩
 
 theorem FrameInv.mono {nStr nLibs nNs nStr' nLibs' nNs' : Nat} {subc subc' : Nat → Nat} {t : FrameTable}
     (h : FrameInv nStr nLibs nNs subc t) (h1 : nStr ≤ nStr') (h2 : nLibs ≤ nLibs') (h3 : nNs ≤ nNs')
@@ -280,12 +522,16 @@ theorem FrameInv.mono {nStr nLibs nNs nStr' nLibs' nNs' : Nat} {subc subc' : Nat
   exact ⟨a1.mono h1 (Nat.le_refl _), a2.mono h1 h2, a3, a4, a5, a6, a7, a8, a9, a10, a11,
     fun cs hcs => Nat.lt_of_lt_of_le (a12 cs hcs) (h4 _), a13.mono h3, a14⟩
 
+
 /-! ### native symbols -/
 
 def NsInv (nStr nLibs : Nat) (ns : NativeSymbols) : Prop :=
   ns.sizes.length = ns.addrs.length ∧ ns.libs.length = ns.addrs.length ∧
   ns.names.length = ns.addrs.length ∧ AllBelow ns.libs nLibs ∧ AllBelow ns.names nStr ∧
-  MapBelow ns.map ns.addrs.length
+  MapBelow ns.map ns.addrs.length ∧
+  -- the map points at the row of the (lib, address) it is keyed by, and finds every row (improvement round)
+  (∀ kv ∈ ns.map, ns.libs[kv.2]? = some kv.1.1 ∧ ns.addrs[kv.2]? = some kv.1.2) ∧
+  (∀ (j l a : Nat), ns.libs[j]? = some l → ns.addrs[j]? = some a → alookup ns.map (l, a) = some j)
 
 theorem NsInv.mono {nStr nLibs nStr' nLibs' : Nat} {ns : NativeSymbols} (h : NsInv nStr nLibs ns)
     (h1 : nStr ≤ nStr') (h2 : nLibs ≤ nLibs') : NsInv nStr' nLibs' ns :=
@@ -296,23 +542,83 @@ theorem NativeSymbols.indexFor_spec (ns : NativeSymbols) (lib : Nat) (sym : Sym)
     ∃ ns' st' i name, ns.indexFor lib sym st = some (ns', st', i, name) ∧ TSInv st' ∧ st.n ≤ st'.n ∧
       NsInv st'.n nLibs ns' ∧ i < ns'.names.length ∧ name < st'.n ∧
       ns.names.length ≤ ns'.names.length := by
-  obtain ⟨a1, a2, a3, a4, a5, a6⟩ := hn
+  obtain ⟨a1, a2, a3, a4, a5, a6, a7, a8⟩ := hn
   unfold NativeSymbols.indexFor
-  split
-  · rename_i i hi
-    have hlt := a6.lookup hi
+  cases hlk : alookup ns.map (lib, sym.addr) with
+  | some i =>
+    simp only
+    have hlt := a6.lookup hlk
     have : i < ns.names.length := by omega
     rw [List.getElem?_eq_getElem this]
-    refine ⟨_, _, _, _, rfl, hs, Nat.le_refl _, ⟨a1, a2, a3, a4, a5, a6⟩, this, ?_, Nat.le_refl _⟩
+    refine ⟨_, _, _, _, rfl, hs, Nat.le_refl _, ⟨a1, a2, a3, a4, a5, a6, a7, a8⟩, this, ?_, Nat.le_refl _⟩
     exact a5 _ (List.getElem_mem this)
-  · have h1 := st.indexFor_spec sym.name hs
+  | none =>
+    simp only
+    have h1 := st.indexFor_spec sym.name hs
     refine ⟨_, _, _, _, rfl, h1.1, h1.2.2, ?_, by simp; omega, h1.2.1, by simp⟩
     refine ⟨by simp [a1], by simp [a2], by simp [a3], a4.append_one hl,
-      (a5.mono h1.2.2).append_one h1.2.1, ?_⟩
-    intro kv hkv; simp only [List.mem_cons] at hkv
-    rcases hkv with rfl | hkv
-    · simp
-    · have := a6 kv hkv; simp; omega
+      (a5.mono h1.2.2).append_one h1.2.1, ?_, ?_, ?_⟩
+    · intro kv hkv; simp only [List.mem_cons] at hkv
+      rcases hkv with rfl | hkv
+      · simp
+      · have := a6 kv hkv; simp; omega
+    · intro kv hkv; simp only [List.mem_cons] at hkv
+      rcases hkv with rfl | hkv
+      · simp [a2]
+      · obtain ⟨g1, g2⟩ := a7 kv hkv
+        exact ⟨getElem?_append_old _ g1, getElem?_append_old _ g2⟩
+    · intro j l a hl' ha'
+      simp only [alookup]
+      simp only [getElem?_append_one] at hl' ha'
+      by_cases hj : j < ns.addrs.length
+      · rw [if_pos (by omega)] at hl'
+        rw [if_pos hj] at ha'
+        have hold := a8 j l a hl' ha'
+        by_cases he : (lib, sym.addr) = (l, a)
+        · rw [← he, hlk] at hold; cases hold
+        · rw [if_neg he]; exact hold
+      · rw [if_neg (by omega)] at hl'
+        rw [if_neg hj] at ha'
+        split at ha'
+        · rw [if_pos (by omega)] at hl'
+          cases hl'; cases ha'
+          rename_i hje
+          simp [hje]
+        · cases ha'
+
+/-- the returned row is the row of `(lib, sym.addr)`; its size / name are `sym`'s if the pair was not yet
+registered (no row carries it), otherwise the row is untouched; columns are only appended -/
+theorem NativeSymbols.indexFor_get (ns : NativeSymbols) (lib : Nat) (sym : Sym) (st : ThreadStrings)
+    (nStr nLibs : Nat) (hn : NsInv nStr nLibs ns) (hs : StrInv st.table)
+    (r : NativeSymbols × ThreadStrings × Nat × Nat) (h : ns.indexFor lib sym st = some r) :
+    r.1.libs[r.2.2.1]? = some lib ∧ r.1.addrs[r.2.2.1]? = some sym.addr ∧ r.1.names[r.2.2.1]? = some r.2.2.2 ∧
+    ((∃ j : Nat, ns.libs[j]? = some lib ∧ ns.addrs[j]? = some sym.addr) → r.1 = ns ∧ r.2.1 = st) ∧
+    ((¬ ∃ j : Nat, ns.libs[j]? = some lib ∧ ns.addrs[j]? = some sym.addr) →
+      r.1.sizes[r.2.2.1]? = some sym.size ∧ r.2.1.table.strings[r.2.2.2]? = some sym.name) := by
+  obtain ⟨a1, a2, a3, a4, a5, a6, a7, a8⟩ := hn
+  unfold NativeSymbols.indexFor at h
+  cases hlk : alookup ns.map (lib, sym.addr) with
+  | some i =>
+    simp only [hlk] at h
+    split at h
+    · rename_i n hn'
+      cases h
+      obtain ⟨g1, g2⟩ := a7 _ (alookup_mem _ _ _ hlk)
+      refine ⟨g1, g2, hn', fun _ => ⟨rfl, rfl⟩, ?_⟩
+      intro hno
+      exact absurd ⟨i, g1, g2⟩ hno
+    · cases h
+  | none =>
+    simp only [hlk] at h
+    cases h
+    simp only
+    refine ⟨by simp [a2], by simp, by simp [a3], ?_, ?_⟩
+    · rintro ⟨j, hj1, hj2⟩
+      have hj' := a8 j _ _ hj1 hj2
+      rw [hlk] at hj'
+      cases hj'
+    · intro _
+      exact ⟨by simp [a1], (st.table.indexFor_get sym.name hs).1⟩
 
 /-! ### stack table -/
 
